@@ -182,7 +182,7 @@ fn rel(o: Ordering) -> bool {
 
 impl Exec {
     fn viol(&mut self, prop: &'static str, kind: &'static str, detail: String) {
-        if self.violations.len() < 8 && !self.violations.iter().any(|v| v.kind == kind) {
+        if self.violations.len() < 12 && !self.violations.iter().any(|v| v.kind == kind && v.prop == prop) {
             self.violations.push(Violation { prop, kind, detail });
         }
     }
